@@ -209,7 +209,10 @@ class Harness:
             matching_mode=gd.MatchingSearchMode.all_finds,
             macros=macros,
         )
-        return self.MasterOfPuppets(cfg)
+        try:
+            return self.MasterOfPuppets(cfg)
+        except Exception as e:  # noqa: callers that expect compile errors catch Exception; elsewhere this becomes a verdict, not a harness error
+            raise JasmRaised(e, {"rule_file": path, "stage": "compile", "macros": macros}) from e
 
     def match(self, mop, input_file: str, *, ret="list", mode="all", only_addr=False):
         gd = self.gd
